@@ -64,10 +64,10 @@ def _coupling(v):
         if isinstance(n, ast.BinOp) and isinstance(n.op, ast.MatMult):
             m = n.left
             inv = False
-            if isinstance(m, ast.Call) and isinstance(m.func, ast.Attribute) and m.func.attr in ('inverse', 'inv', 'pinverse'):
-                m, inv = m.func.value, True
-            if isinstance(m, ast.Call) and dotted(m.func) in ('torch.linalg.inv', 'torch.inverse') and m.args:
+            if isinstance(m, ast.Call) and dotted(m.func) in ('torch.linalg.inv', 'torch.inverse', 'torch.linalg.pinv', 'torch.pinverse') and m.args:
                 m, inv = m.args[0], True
+            elif isinstance(m, ast.Call) and isinstance(m.func, ast.Attribute) and m.func.attr in ('inverse', 'inv', 'pinverse'):
+                m, inv = m.func.value, True
             if isinstance(m, ast.Call) and isinstance(m.func, ast.Name) and m.args:
                 return m.func.id, m.args[0], inv
     return None
